@@ -44,6 +44,9 @@ class TypeNormalizer:
             t = object
         elif t is inspect._empty:
             t = object
+        elif t is None:
+            # As in typing: None in an annotation stands for its type
+            t = type(None)
         elif t in UnionTypes:
             return type[t]
 
